@@ -912,11 +912,16 @@ class PositionArray(PosBase):
 
             elif a in h5_group and isinstance(h5_group[a], type(h5_group)):
                 # attribute is a part of this group and is not in a separate field
-                cls_module, _, cls_name = h5_group[a].attrs["__class__"].rpartition(".")
-                attr_cls = getattr(sys.modules[cls_module], cls_name)
-                arg = attr_cls._read(h5_group[a], memo)
+                name = f"{h5_group.attrs['fieldname']}.{a}"
+                if name in memo:
+                    # already read through a reference by name from a field that was read earlier
+                    arg = memo[name]
+                else:
+                    cls_module, _, cls_name = h5_group[a].attrs["__class__"].rpartition(".")
+                    attr_cls = getattr(sys.modules[cls_module], cls_name)
+                    arg = attr_cls._read(h5_group[a], memo)
+                    memo[name] = arg
                 pos_args.update({a: arg})
-                memo[f"{h5_group.attrs['fieldname']}.{a}"] = arg
 
         val = h5_group[h5_group.attrs["fieldname"]][...]
 
@@ -1263,11 +1268,16 @@ class PositionDeltaArray(PosBase):
 
             elif a in h5_group and isinstance(h5_group[a], type(h5_group)):
                 # attribute is a part of this group and is not in a separate field
-                cls_module, _, cls_name = h5_group[a].attrs["__class__"].rpartition(".")
-                attr_cls = getattr(sys.modules[cls_module], cls_name)
-                arg = attr_cls._read(h5_group[a], memo)
+                name = f"{h5_group.attrs['fieldname']}.{a}"
+                if name in memo:
+                    # already read through a reference by name from a field that was read earlier
+                    arg = memo[name]
+                else:
+                    cls_module, _, cls_name = h5_group[a].attrs["__class__"].rpartition(".")
+                    attr_cls = getattr(sys.modules[cls_module], cls_name)
+                    arg = attr_cls._read(h5_group[a], memo)
+                    memo[name] = arg
                 delta_args.update({a: arg})
-                memo[f"{h5_group.attrs['fieldname']}.{a}"] = arg
 
         val = h5_group[h5_group.attrs["fieldname"]][...]
 
@@ -1646,11 +1656,16 @@ class PosVelArray(PositionArray):
                     memo[fieldname] = arg
             elif a in h5_group and isinstance(h5_group[a], type(h5_group)):
                 # attribute is a part of this group and is not in a separate field
-                cls_module, _, cls_name = h5_group[a].attrs["__class__"].rpartition(".")
-                attr_cls = getattr(sys.modules[cls_module], cls_name)
-                arg = attr_cls._read(h5_group[a], memo)
+                name = f"{h5_group.attrs['fieldname']}.{a}"
+                if name in memo:
+                    # already read through a reference by name from a field that was read earlier
+                    arg = memo[name]
+                else:
+                    cls_module, _, cls_name = h5_group[a].attrs["__class__"].rpartition(".")
+                    attr_cls = getattr(sys.modules[cls_module], cls_name)
+                    arg = attr_cls._read(h5_group[a], memo)
+                    memo[name] = arg
                 pos_args.update({a: arg})
-                memo[f"{h5_group.attrs['fieldname']}.{a}"] = arg
 
         val = h5_group[h5_group.attrs["fieldname"]][...]
         posvel = cls.create(val, system=system, ellipsoid=ellipsoid_, **pos_args)
@@ -1786,11 +1801,16 @@ class PosVelDeltaArray(PositionDeltaArray):
 
             elif a in h5_group and isinstance(h5_group[a], type(h5_group)):
                 # attribute is a part of this group and is not in a separate field
-                cls_module, _, cls_name = h5_group[a].attrs["__class__"].rpartition(".")
-                attr_cls = getattr(sys.modules[cls_module], cls_name)
-                arg = attr_cls._read(h5_group[a], memo)
+                name = f"{h5_group.attrs['fieldname']}.{a}"
+                if name in memo:
+                    # already read through a reference by name from a field that was read earlier
+                    arg = memo[name]
+                else:
+                    cls_module, _, cls_name = h5_group[a].attrs["__class__"].rpartition(".")
+                    attr_cls = getattr(sys.modules[cls_module], cls_name)
+                    arg = attr_cls._read(h5_group[a], memo)
+                    memo[name] = arg
                 delta_args.update({a: arg})
-                memo[f"{h5_group.attrs['fieldname']}.{a}"] = arg
 
         val = h5_group[h5_group.attrs["fieldname"]][...]
 
